@@ -9,6 +9,37 @@ use crate::trace::{Drain, Event, Trace};
 
 pub struct C19;
 
+/// Execute an event on a plain terminal and return the changed-line report of the call(s).
+fn apply_report(vt: &mut avt::Vt, e: &Event) -> Option<Vec<usize>> {
+    match e {
+        Event::FeedStr { s, .. } => {
+            let ch = vt.feed_str(s);
+            let lines = ch.lines.clone();
+            ch.scrollback.for_each(drop);
+            Some(lines)
+        }
+        Event::Inert { s, .. } => {
+            let ch = vt.feed_str(s);
+            let lines = ch.lines.clone();
+            ch.scrollback.for_each(drop);
+            Some(lines)
+        }
+        Event::Feed { s } => {
+            for ch in s.chars() {
+                vt.feed(ch);
+            }
+            None
+        }
+        Event::Resize { cols, rows, .. } => {
+            let ch = vt.resize(*cols, *rows);
+            let lines = ch.lines.clone();
+            ch.scrollback.for_each(drop);
+            Some(lines)
+        }
+        _ => None,
+    }
+}
+
 impl Check for C19 {
     fn id(&self) -> &'static str {
         "C19"
@@ -118,23 +149,33 @@ impl Check for C19 {
             Event::FeedStr { s, .. } | Event::Feed { s } | Event::Inert { s, .. } => s.chars().skip(ck).collect(),
             _ => String::new(),
         };
-        let ra = catch_avt(|| {
-            a.apply(&t.events[ei]);
-        });
+        // Inert events are delivered in pieces; their per-call reports are not compared here
+        let compare_reports = matches!(&t.events[ei], Event::FeedStr { .. } | Event::Feed { .. });
+        let ra = catch_avt(|| a.apply(&t.events[ei]).lines);
         let rb = catch_avt(|| {
             let mut b = build(c, rw, t.config.limit);
-            // the remainder of the call that carried the reset, delivered the same way
-            if matches!(&t.events[ei], Event::Feed { .. }) {
+            // the remainder of the call that carried the reset, delivered the same way (also when
+            // it is empty: the call itself reports and clears the fresh terminal's changed lines)
+            let rep = if matches!(&t.events[ei], Event::Feed { .. }) {
                 for ch in rest.chars() {
                     b.feed(ch);
                 }
-            } else if !rest.is_empty() {
-                b.feed_str(&rest);
-            }
-            b
+                None
+            } else {
+                let ch = b.feed_str(&rest);
+                let lines = ch.lines.clone();
+                ch.scrollback.for_each(drop);
+                Some(lines)
+            };
+            (b, rep)
         });
         let mut b = match (ra, rb) {
-            (Ok(()), Ok(b)) => b,
+            (Ok(la), Ok((b, lb))) => {
+                if compare_reports && la != lb {
+                    return Verdict::Violation { rule: "C19/changed-lines".into(), detail: format!("the call that carried ESC c reported changed lines {:?}, a fresh terminal fed the rest of that call reports {:?}", la, lb) };
+                }
+                b
+            }
             (Err(_), Err(_)) => {
                 st.bump("runs_abandoned_on_panic");
                 return Verdict::Skip;
@@ -170,14 +211,14 @@ impl Check for C19 {
         }
         let mut cont_events = 0u64;
         for (j, e) in t.events.iter().enumerate().skip(ei + 1) {
-            let ra = catch_avt(|| {
-                a.apply(e);
-            });
-            let rb = catch_avt(|| {
-                Live::apply_plain(&mut b, e);
-            });
+            let ra = catch_avt(|| a.apply(e).lines);
+            let rb = catch_avt(|| apply_report(&mut b, e));
             match (ra, rb) {
-                (Ok(()), Ok(())) => {}
+                (Ok(la), Ok(lb)) => {
+                    if !matches!(e, Event::Inert { .. }) && la != lb {
+                        return Verdict::Violation { rule: "C19/changed-lines".into(), detail: format!("continuation event #{} ({}): the reset terminal reports changed lines {:?}, the fresh one {:?}", j, crate::trace::event_brief(e).chars().take(50).collect::<String>(), la, lb) };
+                    }
+                }
                 (Err(_), Err(_)) => {
                     st.bump("runs_abandoned_on_panic");
                     return Verdict::Skip;
@@ -206,7 +247,7 @@ impl Check for C19 {
     }
     fn meta(&self) -> Meta {
         Meta {
-            rule: "chaos history (parser left in any state by partial tokens, alternate screen, modes, tabs, margins, charsets, saved contexts, resizes, damage) -> ESC c (own call, feed() loop, glued to the continuation, or cut between ESC and c) -> continuation (input and resizes); twin: a fresh Vt of the current size and limit fed the same continuation; compared after the reset and after every continuation event: view, lines(), cursor incl. visibility, cursor-key mode, text(), dump(); the position of the reset is found by the reference parser; non-trivial = some history before the reset; distinct = (final screen, parser state before reset, alternate flag)",
+            rule: "chaos history (parser left in any state by partial tokens, alternate screen, modes, tabs, margins, charsets, saved contexts, resizes, damage) -> ESC c (own call, feed() loop, glued to the continuation, or cut between ESC and c) -> continuation (input and resizes); twin: a fresh Vt of the current size and limit fed the same continuation; compared after the reset and after every continuation event: view, lines(), cursor incl. visibility, cursor-key mode, text(), dump() and the changed-line report of each call; the position of the reset is found by the reference parser; non-trivial = some history before the reset; distinct = (final screen, parser state before reset, alternate flag)",
             assumptions: vec!["'fresh terminal' = Vt::builder().size(current).scrollback_limit(configured).build()", "a panic on both sides is C01's subject"],
             real: vec!["avt::Vt (both twins)", "avt::parser::Parser (lock-step)"],
             simulated: vec!["App", "Pipe (cuts, damage, truncation)", "Window", "reset-recovery twin"],
